@@ -34,6 +34,7 @@ type CheckConf struct {
 	Libs       []string          `json:"libs"` // lib packages needed (default: all in /verif/lib)
 	Kshim      bool              `json:"kshim"`
 	Race       bool              `json:"race"`
+	ShimContext bool             `json:"shim_context"`
 	Shared     []string          `json:"shared"` // shared_inject/<name>/<repo-rel-dir>/*.go
 }
 
@@ -147,17 +148,28 @@ func main() {
 				files = append(files, f)
 			}
 		}
+		sort.Strings(files)
+		var jobs []instrJob
 		for _, rel := range files {
-			src := filepath.Join(*repo, rel)
-			if o, ok := overlay[src]; ok {
-				src = o
+			jobs = append(jobs, instrJob{rel: rel, rewrite: seen[rel], consts: conf.ConstOverride[rel]})
+		}
+		for _, f := range []string{"go.mod", "go.sum"} {
+			data, err := os.ReadFile(filepath.Join(*repo, f))
+			if err != nil {
+				die("%v", err)
 			}
-			dst := filepath.Join(gen, "instr", rel)
-			os.MkdirAll(filepath.Dir(dst), 0o755)
-			if err := instrumentFile(src, dst, seen[rel], conf.ConstOverride[rel]); err != nil {
-				die("instrument %s: %v", rel, err)
-			}
-			overlay[filepath.Join(*repo, rel)] = dst
+			os.WriteFile(filepath.Join(work, f), data, 0o644)
+		}
+		tagsPre := "verif"
+		if conf.Tags != "" {
+			tagsPre += "," + conf.Tags
+		}
+		res, err := instrumentAll(*repo, work, overlay, tagsPre, jobs, !conf.ShimContext)
+		if err != nil {
+			die("instrument: %v", err)
+		}
+		for k, v := range res {
+			overlay[k] = v
 		}
 	}
 
